@@ -114,6 +114,11 @@ func (c Case) enc(gen string) string {
 
 const nIntf = 3
 
+// stream nonempty: cases per run (each costs about a dozen runs of drc)
+const neCap = 1500
+
+var neRuns, neRunsL int
+
 func aclName(n int) string { return fmt.Sprintf("A%d", n) }
 
 func asaLine(name string, l Line, v6 bool) string {
@@ -286,9 +291,36 @@ func linuxTC(n int) (string, string, bool) {
 	return linuxTables[(n/5)%2], linuxChains[n%5], n%5 >= 3
 }
 
+// linuxNeg: how the source match of the rule with this id is written: 0 plain, 1 `! -s ip` (iptables-save),
+// 2 `-s ! ip` (old spelling the parser accepts as well).  A function of the id, so the reader can check that a
+// negation is neither lost nor added on the way through parser, merge and output.
+func linuxNeg(id int) int {
+	switch id % 7 {
+	case 3:
+		return 1
+	case 5:
+		return 2
+	}
+	return 0
+}
+
 func linuxRule(chain string, l Line) string {
 	tgt := map[string]string{"p": "ACCEPT", "d": "DROP", "o": "LOG", "6": "RETURN"}[l.Kind]
-	return fmt.Sprintf("-A %s -s 10.%d.%d.%d -j %s", chain, l.ID/65536+1, l.ID/256%256, l.ID%256, tgt)
+	ip := fmt.Sprintf("10.%d.%d.%d", l.ID/65536+1, l.ID/256%256, l.ID%256)
+	rule := ""
+	switch linuxNeg(l.ID) {
+	case 1:
+		rule = fmt.Sprintf("-A %s ! -s %s -j %s", chain, ip, tgt)
+	case 2:
+		rule = fmt.Sprintf("-A %s -s ! %s -j %s", chain, ip, tgt)
+	default:
+		rule = fmt.Sprintf("-A %s -s %s -j %s", chain, ip, tgt)
+	}
+	if l.ID%4 == 1 {
+		// comment lines between the rules (iptables-save writes them only at the top; a hand-written raw file has them anywhere)
+		rule += fmt.Sprintf("\n# rule %d", l.ID)
+	}
+	return rule
 }
 
 func renderLinux(f File) string {
@@ -645,14 +677,26 @@ func readOutcome(dev, stdout, stderr, panicMsg string) outcome {
 						o.Lists[table*5+ci] = []string{}
 					}
 				}
-			case len(w) == 6 && w[0] == "-A":
+			case (len(w) == 6 || (len(w) == 7 && (w[2] == "!" || w[3] == "!"))) && w[0] == "-A":
+				neg := 0
+				if len(w) == 7 {
+					if w[2] == "!" {
+						neg, w = 1, append(append([]string{}, w[:2]...), w[3:]...)
+					} else {
+						neg, w = 2, append(append([]string{}, w[:3]...), w[4:]...)
+					}
+				}
 				ip := strings.Split(w[3], ".")
 				a, _ := strconv.Atoi(ip[1])
 				b, _ := strconv.Atoi(ip[2])
 				c, _ := strconv.Atoi(ip[3])
+				id := (a-1)*65536 + b*256 + c
+				if (neg != 0) != (linuxNeg(id) != 0) {
+					o.Odd = append(o.Odd, "negation of the source match lost or added: "+l)
+				}
 				for ci, ch := range linuxChains {
 					if w[1] == ch {
-						o.Lists[table*5+ci] = append(o.Lists[table*5+ci], strconv.Itoa((a-1)*65536+b*256+c))
+						o.Lists[table*5+ci] = append(o.Lists[table*5+ci], strconv.Itoa(id))
 					}
 				}
 			default:
@@ -2010,10 +2054,20 @@ func runC18(ctx *Ctx) *Result {
 		if safe6 != !v6SharesName(c) {
 			res.Count("note:safeMerge-differs-from-simple-shared-name-test")
 		}
-		for _, v := range oracle(c, o, safe6) {
+		vs := oracle(c, o, safe6)
+		for _, v := range vs {
 			sig, name := sigOf(v.pred, map[string]any{"backend": c.Dev})
 			res.Count("oracle:" + name)
 			res.Fail(sig, v.what, c)
+		}
+		// stream "nonempty" (nonempty.go): the same merged target against devices that already hold something
+		if c.Dev == "asa" && o.Err == "" && len(o.Odd) == 0 && len(vs) == 0 && (neRuns < neCap || ctx.Replay != "") {
+			neRuns++
+			runNonEmptyASA(c, safe6, res)
+		}
+		if c.Dev == "linux" && o.Err == "" && len(o.Odd) == 0 && len(vs) == 0 && (neRunsL < neCap || ctx.Replay != "") {
+			neRunsL++
+			runNonEmptyLinux(c, safe6, res)
 		}
 		if o.Err == "" && len(o.Odd) == 0 {
 			judged[c.Dev]++
